@@ -187,6 +187,20 @@ CHECKS = {
         TRUSTED + "; the recorder of harness/recorder.py wraps public methods from outside the repo; 1e-3 px fixed point",
         "DESIGN.md 4/C05",
     ),
+    "C04": (
+        "exploration",
+        "The configuration space is enumerated by TLC from spec/MC_C04.tla (on top of AlignSearch.tla): displacement vectors "
+        "over the CLOSED range box (all 8 corners, face points, interior quarter-pixel points) x isotropic/anisotropic/off-"
+        "grid limits x even/odd/non-cubic boxes x ZNCC/NCC/PCC/FSC x mask x cutoff x tilt/orientation, and for every case "
+        "the I layer gives the per-axis distance from the true displacement to the nearest shift the search can return "
+        "(TruePeakReachable is a TLC invariant for ZNCC/NCC/FSC and, after the PCC repair, PccGapBounded for PCC). Each "
+        "sampled case is replayed with an analytic template evaluated at k-d (a true displaced copy) and the returned "
+        "shift/rotation/score compared with the property's own tolerances. Sub-pixel accuracy for arbitrary templates is "
+        "a floating-point claim the specification cannot bound; hence 'exploration', systematically enumerated.",
+        "case space enumerated and reachability decided by TLC on the TLA+ spec (AlignSearch/MC_C04); each case replayed on the real models",
+        TRUSTED + "; analytic Gaussian-mixture templates; tolerances 0.1 / 0.5 px and score >= 0.9 from the property",
+        "DESIGN.md 4/C04",
+    ),
 }
 
 REASON_TODO = "check not built yet in this round (planned: see DESIGN.md section 4)"
